@@ -1444,6 +1444,20 @@ impl Sessions {
         Ok((value, to_persist))
     }
 
+    /// Undo the reservation of `value` made by the last
+    /// [`Sessions::reserve_global_group_data_ctr`] call, when the boundary it
+    /// asked the caller to persist could not be stored.
+    ///
+    /// `value` did not reach the wire, so it is handed out again - with nothing
+    /// covered: the next reservation extends the boundary anew and demands the
+    /// write again. Without this, the in-memory boundary would already sit an
+    /// epoch ahead of the durable one, and the following reservations would be
+    /// sent with no stored boundary covering them - and get replayed after a
+    /// restart.
+    pub(crate) fn unreserve_global_group_data_ctr(&mut self, value: u32) {
+        self.set_global_group_data_ctr(value);
+    }
+
     /// Get or create a TX group session for sending group data messages to
     /// `(fab_idx, group_id)`.
     ///
@@ -2434,6 +2448,27 @@ mod tests {
         let (value, boundary) = sessions.reserve_global_group_data_ctr(&crypto).unwrap();
         assert_eq!(value, durable);
         assert_eq!(boundary, Some(1000 + 2 * GROUP_DATA_CTR_EPOCH));
+    }
+
+    /// A reservation whose boundary could not be stored is taken back: the
+    /// value is handed out again and the write is demanded again, so nothing
+    /// is ever sent beyond what is durable.
+    #[cfg(feature = "groups")]
+    #[test]
+    fn test_group_data_ctr_unreserve_demands_the_write_again() {
+        let crypto = test_only_crypto();
+
+        let mut sessions = Sessions::new();
+        sessions.resume_global_group_data_ctr(1000);
+
+        let (value, boundary) = sessions.reserve_global_group_data_ctr(&crypto).unwrap();
+        assert_eq!((value, boundary), (1000, Some(1000 + GROUP_DATA_CTR_EPOCH)));
+
+        // The store failed.
+        sessions.unreserve_global_group_data_ctr(value);
+
+        let (value, boundary) = sessions.reserve_global_group_data_ctr(&crypto).unwrap();
+        assert_eq!((value, boundary), (1000, Some(1000 + GROUP_DATA_CTR_EPOCH)));
     }
 
     /// A first-ever reservation seeds the counter and demands its boundary be
